@@ -167,7 +167,9 @@ def run_shards(header, cases, checker, tag, shard=250, timeout=900, post=""):
                 "Definition cases := [\n" + ";\n".join(cases[k:k + shard]) + "\n].",
                 "Fixpoint bad_ (i : nat) l := match l with [] => [] | c :: r => match %s c with O => bad_ (S i) r "
                 "| k => (i, k) :: bad_ (S i) r end end." % checker,
-                "Eval vm_compute in bad_ 0 cases.", post]
+                "Set Printing Width 1000000.",
+                "Eval vm_compute in bad_ 0 cases.",
+                "Eval vm_compute in length (bad_ 0 cases).", post]
         (tmp / (name + ".v")).write_text("\n".join(body))
         files.append((k, name))
     procs, bad, errors = [], {}, []
@@ -189,12 +191,19 @@ def run_shards(header, cases, checker, tag, shard=250, timeout=900, post=""):
             m = re.search(r"=\s*(\[.*?\])\s*:\s*list", out, re.S)
             if not m:
                 errors.append("%s: unparsable %s" % (name, out[-500:])); continue
-            for i, code in re.findall(r"\((\d+)(?:%nat)?\s*,\s*(\d+)(?:%nat)?\)", m.group(1)):
+            pairs = re.findall(r"\(\s*(\d+)(?:%nat)?\s*,\s*(\d+)(?:%nat)?\s*\)", m.group(1))
+            mc = re.search(r"=\s*(\d+)(?:%nat)?\s*:\s*nat\b", out[m.end():])
+            if not mc or int(mc.group(1)) != len(pairs):   # never lose a failing case to the pretty-printer
+                errors.append("%s: %s failing cases counted by Coq, %d parsed" % (name, mc.group(1) if mc else "?", len(pairs))); continue
+            for i, code in pairs:
                 bad[k + int(i)] = int(code)
         running = still
         if running:
             time.sleep(0.05)
-    shutil.rmtree(tmp, ignore_errors=True)
+    if errors and os.environ.get("VERIF_DEBUG"):
+        print("run_shards errors:", *errors[:3], sep="\n", file=sys.stderr)
+    if not os.environ.get("VERIF_KEEP"):
+        shutil.rmtree(tmp, ignore_errors=True)
     return bad, errors
 
 
